@@ -244,6 +244,8 @@ func (e edit) String() string {
 		return fmt.Sprintf("inner%d.Set(%d)", e.K, e.V)
 	case "base":
 		return fmt.Sprintf("base%d.Set(%d)", e.K, e.V)
+	case "fault":
+		return fmt.Sprintf("arm-fault(fn panics on key %d)", e.K)
 	}
 	return e.Kind
 }
@@ -641,6 +643,8 @@ type simpleResult struct {
 	schedule     int // passes where the predicted recompute schedule was off (harness self-check)
 	recomputes   int
 	changedSteps int
+	failedPasses int // passes that returned an error because the injected fault fired
+	faultsIdle   int // armed faults whose key the function was not called for
 }
 
 const parallelism = 4
@@ -758,9 +762,29 @@ func runSimple(spec opSpec, edits []edit) simpleResult {
 				unobserve = w.observe()
 				observed, fresh = true, true
 			}
+		case "fault":
+			// the user function will panic the next time it is called for this key
+			w.faultArmed, w.faultKey, w.faultFired = true, e.K, false
 		case "pass":
 			before := incr.ExpertNode(w.node).NumRecomputes()
-			if err := stabilize(w.g, e.Par); err != nil {
+			err := stabilize(w.g, e.Par)
+			fired, idle := w.faultFired, w.faultArmed
+			w.faultArmed, w.faultFired = false, false
+			if idle {
+				res.faultsIdle++ // armed, but the function was not called for that key in this pass
+			}
+			if fired {
+				if err == nil {
+					res.fail = &failure{pass: i, what: "the pass returned nil although the user function panicked in it"}
+					return res
+				}
+				// a failed pass: nothing is promised about the value; the node stays queued and the
+				// next pass has to bring everything up to date
+				res.failedPasses++
+				dirty = true
+				continue
+			}
+			if err != nil {
 				res.fail = &failure{pass: i, what: "Stabilize failed: " + err.Error()}
 				return res
 			}
@@ -814,7 +838,8 @@ func randEdit(r *hx.Rand, side int) edit {
 }
 
 // genEpisodes appends episodes of edits, each ending in a pass, and counts their kinds.
-func genSimple(r *hx.Rand, spec opSpec, episodes int, rep *hx.Report) []edit {
+// faults: the history also gets fault episodes (the operator's user function panics in a pass)
+func genSimple(r *hx.Rand, spec opSpec, episodes int, faults bool, rep *hx.Report) []edit {
 	var out []edit
 	side := func() int {
 		if spec.usesRight && r.Chance(1, 2) {
@@ -828,6 +853,41 @@ func genSimple(r *hx.Rand, spec opSpec, episodes int, rep *hx.Report) []edit {
 		}
 	}
 	for ep := 0; ep < episodes; ep++ {
+		if faults && r.Chance(3, 10) {
+			// several keys are edited, the user function panics on one of them, the pass fails;
+			// then fault-free passes, with or without further edits
+			rep.Count("episode:fault(user-fn-panics-on-one-key)->failed-pass->fault-free-passes")
+			var keys []int
+			for n := r.Range(2, 5); n > 0; n-- {
+				e := randEdit(r, side())
+				out = append(out, e)
+				if e.Kind == "set" || r.Chance(1, 3) {
+					keys = append(keys, e.K)
+				}
+			}
+			if len(keys) == 0 {
+				e := edit{Kind: "set", Side: side(), K: r.Intn(nKeys), V: r.Intn(nVals)}
+				out = append(out, e)
+				keys = append(keys, e.K)
+			}
+			key := keys[r.Intn(len(keys))]
+			out = append(out, edit{Kind: "fault", K: key}, edit{Kind: "pass"})
+			switch r.Intn(4) {
+			case 0:
+				rep.Count("episode-step:after-the-failed-pass:more-edits-on-other-keys")
+				some(1, 2)
+			case 1:
+				rep.Count("episode-step:after-the-failed-pass:the-faulting-key-is-edited-again")
+				out = append(out, edit{Kind: "set", Side: side(), K: key, V: r.Intn(nVals)})
+			default:
+				rep.Count("episode-step:after-the-failed-pass:no-further-edits")
+			}
+			if r.Chance(1, 3) {
+				out = append(out, edit{Kind: "pass"})
+			}
+			out = append(out, edit{Kind: "pass"})
+			continue
+		}
 		k := r.Intn(100)
 		switch {
 		case k < 25:
@@ -1937,9 +1997,16 @@ func main() {
 		for i := 0; i < *count; i++ {
 			r := rng.Fork()
 			spec := genSpec(r, kind)
-			edits := genSimple(r, spec, *episodes, rep)
+			faults := spec.userFn && r.Chance(1, 2)
+			edits := genSimple(r, spec, *episodes, faults, rep)
 			chooseStabilizers(r, edits, rep)
 			res := runSimple(spec, edits)
+			if faults {
+				// failed passes are outside the model: these histories are checked on the implementation only
+				rep.Count("fault-histories(implementation-only,not-in-the-Gallina-sample)")
+				rep.Histogram["fault:passes-that-failed-on-the-injected-panic"] += res.failedPasses
+				rep.Histogram["fault:armed-but-fn-not-called-for-that-key"] += res.faultsIdle
+			}
 			rep.Evaluations++
 			rep.Count("op:" + kind)
 			if spec.respects {
@@ -1960,7 +2027,7 @@ func main() {
 				report("mapi:"+kind, fmt.Sprintf("mapi.%s (%s): %s: got %v want %v after %v", kind, spec.coq, f.what, f.got, f.want, editStrings(small)),
 					map[string]any{"operator": kind, "params": spec.coq, "edits": small, "script": editStrings(small), "got": f.got.String(), "want": f.want.String()})
 			}
-			if len(res.steps) == 0 {
+			if len(res.steps) == 0 || faults {
 				continue
 			}
 			parts := make([]string, len(res.steps))
